@@ -22,7 +22,7 @@ func (w *World) newBareVC(key string) *FuncVC {
 		names: map[*ssa.Alloc]string{}, usedAxioms: map[string]bool{}, rangeIters: map[*ssa.Range]string{},
 		localNames: map[string]*ssa.Alloc{}, stringLits: map[string]Term{},
 		localSlices: map[ssa.Value]localSlice{}, castChecked: map[*ssa.Range]bool{}, mapKeySorts: map[string]string{},
-		usedSpecs: map[string]bool{}, forceAxioms: map[string]bool{}, noAxioms: map[string]bool{}, tablesUsed: map[string]bool{}}
+		usedSpecs: map[string]bool{}, forceAxioms: map[string]bool{}, noAxioms: map[string]bool{}, tablesUsed: map[string]bool{}, regTabsUsed: map[string]bool{}}
 	fv.entry = newState()
 	fv.cur = fv.entry
 	fv.curReach = tTrue
